@@ -106,6 +106,7 @@ class RealWorld:
         self.kinds = {}
         self.pending_files = set()
         self.caller_fs = []         # filesystem objects the CALLER made and handed to a reader: they stay the caller's
+        self.refuse = False         # every new handle / wrapper first gets a call that is rightly REFUSED (a negative seek)
 
     def make_reader(self, kind, name, src, cfd):
         from pyctr.type.romfs import RomFSReader
@@ -216,6 +217,17 @@ class RealWorld:
         else:
             raise KeyError(kind)
         self.objs[hname] = h
+        self.refused_call(h)
+
+    def refused_call(self, h):
+        """an error on an OPEN handle (a negative seek is refused with ValueError) must leave no trace: in particular the handle
+        still refuses everything once it is closed"""
+        if self.refuse:
+            for bad in ((-1,), (-5, 0), (0, 7)):
+                try:
+                    h.seek(*bad)
+                except Exception:  # noqa
+                    pass
 
     def run(self, op):
         k = op[0]
@@ -247,6 +259,7 @@ class RealWorld:
                     self.objs[op[2]] = e.TWLCTRFileIO(inner, eng, 0x01, 0, **kw)
                 else:
                     self.objs[op[2]] = eng.create_ctr_io(0x01 if op[1] == 'twl' else 0x2C, inner, 0, **kw)
+                self.refused_call(self.objs[op[2]])
                 return 'ok'
             if k == 'close':
                 self.objs[op[1]].close()
@@ -318,6 +331,8 @@ class C16(Check):
             for cfd in (None, True, False):
                 for tail in ('wrap-close', 'wrap-inner-first', 'wrap-double'):
                     yield {'kind': 'wrapper', 'flavour': flavour, 'src': 'obj', 'cfd': cfd, 'sites': [], 'tail': tail, 'q': []}
+                    # ... after a call on the open wrapper was rightly refused (a negative seek)
+                    yield {'kind': 'wrapper', 'flavour': flavour, 'src': 'obj', 'cfd': cfd, 'sites': [], 'tail': tail, 'q': [], 'refuse': True}
         for kind in ('romfs', 'exefs', 'ncch-plain', 'ncch-split', 'cia', 'cci', 'diff', 'disa'):
             for how in ('garbage', 'truncated', 'nokeys'):
                 for cfd in (None, False, True):
@@ -337,6 +352,10 @@ class C16(Check):
                     yield {'kind': kind, 'src': src, 'cfd': cfd, 'sites': sites, 'tail': 'double', 'q': q}
                     # every handle used (data read twice: whatever it caches is warm) BEFORE the reader is closed
                     yield {'kind': kind, 'src': src, 'cfd': cfd, 'sites': sites, 'tail': 'warm-reader-read-tell', 'q': q}
+                    # every handle had a call REFUSED while it was open (error-path state must not disarm the closed check)
+                    if src == 'obj' or kind in DIR_KINDS:
+                        yield {'kind': kind, 'src': src, 'cfd': cfd, 'sites': sites, 'tail': 'reader-read-tell', 'q': q, 'refuse': True}
+                        yield {'kind': kind, 'src': src, 'cfd': cfd, 'sites': sites + sites, 'tail': 'handles-first', 'q': q, 'refuse': True}
                     for suffix in KINDS[kind][2]:
                         yield {'kind': kind, 'src': src, 'cfd': cfd, 'sites': sites, 'tail': 'nested:' + suffix, 'q': q}
 
@@ -414,7 +433,7 @@ class C16(Check):
                 steps.append(['io', 'h%d' % rng.randrange(len(sites)), 'tell'])
         filename = 'f' if (src == 'obj' and kind not in DIR_KINDS) else ('r.file' if kind not in DIR_KINDS else None)
         return {'kind': kind, 'src': src, 'cfd': cfd, 'sites': sites, 'tail': 'random', 'steps': steps,
-                'q': [['closed?', filename]] if filename else []}
+                'q': [['closed?', filename]] if filename else [], 'refuse': rng.chance(0.3)}
 
     def script(self, case):
         kind, q = case['kind'], case['q']
@@ -462,6 +481,7 @@ class C16(Check):
         tmp = tempfile.mkdtemp(prefix='pyctr-verif-c16-')
         try:
             w = RealWorld(tmp)
+            w.refuse = bool(case.get('refuse'))
             real = [w.run(op) for op in ops]
             fs_closed = [f for f in w.caller_fs if f.isclosed()]
             for o in w.objs.values():
@@ -537,7 +557,8 @@ class C16(Check):
                 break
         if fs_closed and not mon:
             mon.append("a filesystem object the caller handed in (fs=) was closed by the library: it belongs to the caller")
-        info = {'close-graph:' + geom: 1, f'kind:{kind}': 1, f'src:{src}': 1, f'cfd:{cfd}': 1, f'tail:{case["tail"].split(":")[0]}': 1}
+        info = {'close-graph:' + geom: 1, f'kind:{kind}': 1, f'src:{src}': 1, f'cfd:{cfd}': 1, f'tail:{case["tail"].split(":")[0]}': 1,
+                'a call refused on every open handle first:%s' % bool(case.get('refuse')): 1}
         return CaseResult(real, model, mon, f'{kind}:{src}:{cfd}:{case["tail"]}:{len(ops)}', key, info)
 
     def shrink(self, case):
